@@ -316,7 +316,11 @@ class P:
                     self.eat()
                     pats = None
                 else:
-                    pats.append(self.unary())
+                    lo = self.unary()
+                    if self.peek() == "..=":
+                        self.eat()
+                        lo = ("prange", lo, self.unary())
+                    pats.append(lo)
                 if self.peek() == "|":
                     self.eat()
                     continue
@@ -339,7 +343,10 @@ class P:
         for pats, body in reversed(arms):
             cond = None
             for pt in pats:
-                c = ("bin", "==", scrut, pt)
+                if pt[0] == "prange":
+                    c = ("bin", "&&", ("bin", "<=", pt[1], scrut), ("bin", "<=", scrut, pt[2]))
+                else:
+                    c = ("bin", "==", scrut, pt)
                 cond = c if cond is None else ("bin", "||", cond, c)
             node_else = [("expr", ("if", cond, body, node_else), False)]
         return node_else[0][1]
